@@ -907,6 +907,21 @@ class Exec:
         if isinstance(r, Ref):
             return s.iter_next(st, r.cell, r.path, where)
         k = r['kind']
+        if k == 'range':
+            out = []
+            has = ULT(r['pos'], r['end'])
+            if s.feasible(st, has):
+                s1 = st.clone()
+                s1.pc.append(has)
+                r1 = s1.get(cell, path)
+                v = r1['pos']
+                r1['pos'] = r1['pos'] + 1
+                out.append((s1, 'some', v))
+            if s.feasible(st, z3.Not(has)):
+                s2 = st.clone()
+                s2.pc.append(z3.Not(has))
+                out.append((s2, 'none', None))
+            return out
         if k in ('slice', 'rslice'):
             out = []
             has = ULT(r['pos'], r['end'])
@@ -1035,9 +1050,19 @@ class Exec:
                 out.append((s1, 'some', v))
         return out
 
+    @staticmethod
+    def as_iter(v):
+        """a `Range<usize>` aggregate used as an iterator"""
+        if isinstance(v, dict) and 'kind' not in v and '__closure__' not in v and set(v.keys()) == {0, 1} and z3.is_expr(v[0]) and z3.is_expr(v[1]) and not z3.is_bool(v[0]):
+            return {'kind': 'range', 'pos': v[0], 'end': v[1]}
+        return v
+
     def size_hint(s, st, r):
         if isinstance(r, Ref):
             return s.size_hint(st, st.get(r.cell, r.path))
+        if r['kind'] == 'range':
+            n = z3.If(ULE(r['pos'], r['end']), r['end'] - r['pos'], bv(0))
+            return {0: n, 1: Enum('Some', {0: n})}
         if r['kind'] in ('slice', 'rslice'):
             n = r['end'] - r['pos']
             return {0: n, 1: Enum('Some', {0: n})}
@@ -1197,6 +1222,8 @@ class Exec:
             if isinstance(vk_, dict):
                 if vk_.get('kind') == 'slice':
                     inv.pc.append(z3.And(ULE(v0_['pos'], vk_['pos']), ULE(vk_['pos'], vk_['end'])))
+                if vk_.get('kind') == 'range':
+                    inv.pc.append(z3.And(ULE(v0_['pos'], vk_['pos']), z3.Or(ULE(vk_['pos'], vk_['end']), UGT(v0_['pos'], v0_['end']))))
                 if vk_.get('kind') == 'rslice':
                     inv.pc.append(z3.And(ULE(vk_['end'], v0_['end']), ULE(vk_['pos'], vk_['end'])))
                 if vk_.get('kind') == 'take':      # the remaining budget of a Take adaptor only counts down (never wraps)
@@ -1533,7 +1560,7 @@ class Exec:
             return R(z3.If(ULE(a, b), a, b) if mm.group(1) == 'min' else z3.If(ULE(a, b), b, a))
         mm = re.match(r'^(?:core::)?num::<impl usize>::(\w+)$', c)
         if mm and mm.group(1) in ('saturating_sub', 'saturating_add', 'wrapping_add', 'wrapping_sub', 'abs_diff', 'unchecked_add', 'unchecked_sub',
-                                  'checked_add', 'checked_sub', 'checked_mul', 'min', 'max'):
+                                  'checked_add', 'checked_sub', 'checked_mul', 'min', 'max', 'div_ceil'):
             op = mm.group(1)
             a, b = args
             MAXV = bv(TWO64 - 1)
@@ -1552,6 +1579,11 @@ class Exec:
                 return R(a + b if op == 'unchecked_add' else a - b)
             if op in ('min', 'max'):
                 return R(z3.If(ULE(a, b), a, b) if op == 'min' else z3.If(ULE(a, b), b, a))
+            if op == 'div_ceil':
+                if z3.is_false(z3.simplify(b != 0)):
+                    raise NotImplementedError('div_ceil by zero')
+                q_, r_ = s.div(st, a, b), s.div(st, a, b, rem=True)
+                return R(z3.If(r_ == 0, q_, q_ + 1))
             ok = {'checked_add': ADDOK(a, b), 'checked_sub': ULE(b, a), 'checked_mul': MULOK(a, b)}[op]
             val = {'checked_add': a + b, 'checked_sub': a - b, 'checked_mul': a * b}[op]
             outs = []
@@ -1593,6 +1625,16 @@ class Exec:
                 return R(p)
             if op == 'drop_in_place':
                 return s.drop_slice(st, Slice(p.arr, p.idx, p.idx + 1), where)
+        mr = re.match(r'^(?:core::)?(?:mem::)?(replace|take|swap)::<usize>$', c)
+        if mr and isinstance(args[0], Ref):
+            old = st.get(args[0].cell, args[0].path)
+            if mr.group(1) == 'swap':
+                other = st.get(args[1].cell, args[1].path)
+                st.set(args[0].cell, args[0].path, other)
+                st.set(args[1].cell, args[1].path, old)
+                return R(UNIT)
+            st.set(args[0].cell, args[0].path, args[1] if mr.group(1) == 'replace' else bv(0))
+            return R(old)
         md = re.match(r'^(?:core::)?(?:mem::)?drop::<(.*)>$', c)
         if md:      # mem::drop(value): the type-directed drop glue of the value, here and now
             tmp = st.new_cell(args[0])
@@ -1611,12 +1653,62 @@ class Exec:
                 s2 = st.clone(); s2.pc.append(ULT(sl.start, sl.end))
                 outs.append((s2, 'ret', Enum('Some', {0: ElemPtr(sl.arr, sl.start if ml.group(1) == 'first' else sl.end - 1)})))
             return outs
-        mo = re.match(r'^Option::<.*>::map::<', c)
-        if mo and isinstance(args[0], Enum):
-            if args[0].variant == 'None':
-                return R(Enum('None', {}))
-            cc = st.new_cell(args[1])
-            return [(s1, k, Enum('Some', {0: v}) if k == 'ret' else None) for (s1, k, v) in s.call_closure2(st, cc, [args[0].fields[0]], where)]
+        mo = re.match(r'^Option::<.*>::(map|is_some_and|is_none_or|filter|map_or|and_then|unwrap_or_else|ok_or|unwrap_or)(::<.*)?$', c)
+        if mo and isinstance(args[0], Enum) and not (mo.group(1) == 'unwrap_or' and 'usize' in c):
+            op, o = mo.group(1), args[0]
+            none = o.variant == 'None'
+            if op == 'ok_or':
+                return R(Enum('Err', {0: args[1]}) if none else Enum('Ok', {0: o.fields[0]}))
+            if op == 'unwrap_or':
+                return R(args[1] if none else o.fields[0])
+            if none:
+                if op in ('map', 'filter', 'and_then'):
+                    return R(Enum('None', {}))
+                if op == 'is_some_and':
+                    return R(z3.BoolVal(False))
+                if op == 'is_none_or':
+                    return R(z3.BoolVal(True))
+                if op == 'map_or':
+                    return R(args[1])
+                cc = st.new_cell(args[1])      # unwrap_or_else
+                return s.call_closure2(st, cc, [], where)
+            val = o.fields[0]
+            if op == 'unwrap_or_else':
+                return R(val)
+            cc = st.new_cell(args[2] if op == 'map_or' else args[1])
+            arg = Ref(st.new_cell(val), ()) if op == 'filter' else val
+            outs = []
+            for (s1, k, v) in s.call_closure2(st, cc, [arg], where):
+                if k != 'ret':
+                    outs.append((s1, k, None))
+                elif op == 'map':
+                    outs.append((s1, 'ret', Enum('Some', {0: v})))
+                elif op in ('is_some_and', 'is_none_or', 'map_or', 'and_then'):
+                    outs.append((s1, 'ret', v))
+                else:      # filter: keep the value iff the predicate holds
+                    if s.feasible(s1, v):
+                        sa = s1.clone(); sa.pc.append(v); outs.append((sa, 'ret', Enum('Some', {0: val})))
+                    if s.feasible(s1, z3.Not(v)):
+                        sb = s1.clone(); sb.pc.append(z3.Not(v)); outs.append((sb, 'ret', Enum('None', {})))
+            return outs
+        msp = re.match(r'^(?:core::slice::)?<impl \[.*\]>::split_at(_mut)?(_unchecked)?$', c)
+        if msp:
+            sl, mid = args
+            if isinstance(sl, ArrRef):
+                sl = Slice(sl.arr, bv(0), sl.arr.len)
+            if sl.stride is not None:
+                raise NotImplementedError('split_at of a slice of chunks')
+            ln = sl.end - sl.start
+            parts = {0: with_prov(Slice(sl.arr, sl.start, sl.start + mid), sl.prov), 1: with_prov(Slice(sl.arr, sl.start + mid, sl.end), sl.prov)}
+            if msp.group(2):
+                s.require(st, ULE(mid, ln), 'split_at_unchecked beyond the end of the slice (undefined behaviour)', where)
+                return R(parts)
+            outs = []
+            if s.feasible(st, ULE(mid, ln)):
+                s1 = st.clone(); s1.pc.append(ULE(mid, ln)); outs.append((s1, 'ret', parts))
+            if s.feasible(st, UGT(mid, ln)):
+                s2 = st.clone(); s2.pc.append(UGT(mid, ln)); s2.events.append('split_at: mid > len: panic'); outs.append((s2, 'unwind', None))
+            return outs
         # ---- ManuallyDrop / MaybeUninit / mem
         if re.match(r'ManuallyDrop::<.*>::new', c):
             return R(args[0])
@@ -1915,6 +2007,13 @@ class Exec:
             if not (isinstance(it, dict) and it.get('kind') in ('slice', 'rslice')):
                 raise NotImplementedError('as_slice of a non-slice iterator')
             return R(Slice(it['arr'], it['pos'], it['end']))
+        args = [s.as_iter(a) for a in args] if re.search(r' as (Iterator|IntoIterator|DoubleEndedIterator)>::', c) else args
+        if re.search(r' as Iterator>::rev$', c):
+            it = dict(args[0])
+            if it.get('kind') not in ('slice', 'rslice'):
+                raise NotImplementedError('rev of a non-slice iterator')
+            it['kind'] = 'rslice' if it['kind'] == 'slice' else 'slice'
+            return R(it)
         if re.search(r' as Iterator>::map::<', c):
             return R({'kind': 'map', 'inner': args[0], 'clo': args[1]})
         if re.search(r' as Iterator>::zip::<', c):
